@@ -331,8 +331,94 @@ fn run_nocontext(c: &Case, out: &mut Vec<String>) -> bool {
     true
 }
 
+/// entry `display`: build a value or an error from `op` lines (`what value|error:<Variant>`, `arg <encoded value>`) and format it
+fn run_display(c: &Case, out: &mut Vec<String>) {
+    let mut what = String::new();
+    let mut args: Vec<Value> = vec![];
+    for op in &c.ops {
+        let (k, v) = op.split_once(' ').unwrap_or((op.as_str(), ""));
+        match k {
+            "what" => what = v.to_string(),
+            "arg" => args.push(dec(v)),
+            _ => {},
+        }
+    }
+    let s = |i: usize| -> String { args[i].as_string().unwrap() };
+    if what == "value" {
+        out.push(format!("display {}", hex(&format!("{}", args[0]))));
+        out.push(format!("debug {}", hex(&format!("{:?}", args[0]))));
+        return;
+    }
+    let e: EvalexprError = match what.as_str() {
+        "error:VariableIdentifierNotFound" => EvalexprError::VariableIdentifierNotFound(s(0)),
+        "error:FunctionIdentifierNotFound" => EvalexprError::FunctionIdentifierNotFound(s(0)),
+        "error:CustomMessage" => EvalexprError::CustomMessage(s(0)),
+        "error:IllegalEscapeSequence" => EvalexprError::IllegalEscapeSequence(s(0)),
+        "error:InvalidRegex" => EvalexprError::InvalidRegex { regex: s(0), message: s(1) },
+        "error:ExpectedString" => EvalexprError::ExpectedString { actual: args[0].clone() },
+        "error:ExpectedInt" => EvalexprError::ExpectedInt { actual: args[0].clone() },
+        "error:ExpectedFloat" => EvalexprError::ExpectedFloat { actual: args[0].clone() },
+        "error:ExpectedNumber" => EvalexprError::ExpectedNumber { actual: args[0].clone() },
+        "error:ExpectedNumberOrString" => EvalexprError::ExpectedNumberOrString { actual: args[0].clone() },
+        "error:ExpectedBoolean" => EvalexprError::ExpectedBoolean { actual: args[0].clone() },
+        "error:ExpectedTuple" => EvalexprError::ExpectedTuple { actual: args[0].clone() },
+        "error:ExpectedEmpty" => EvalexprError::ExpectedEmpty { actual: args[0].clone() },
+        "error:TypeError" => EvalexprError::TypeError { expected: vec![ValueType::String], actual: args[0].clone() },
+        "error:AdditionError" => EvalexprError::AdditionError { augend: args[0].clone(), addend: args[1].clone() },
+        "error:SubtractionError" => EvalexprError::SubtractionError { minuend: args[0].clone(), subtrahend: args[1].clone() },
+        "error:MultiplicationError" => EvalexprError::MultiplicationError { multiplicand: args[0].clone(), multiplier: args[1].clone() },
+        "error:DivisionError" => EvalexprError::DivisionError { dividend: args[0].clone(), divisor: args[1].clone() },
+        "error:ModulationError" => EvalexprError::ModulationError { dividend: args[0].clone(), divisor: args[1].clone() },
+        "error:NegationError" => EvalexprError::NegationError { argument: args[0].clone() },
+        _ => {
+            out.push("unsupported".to_string());
+            return;
+        },
+    };
+    out.push(format!("display {}", hex(&format!("{}", e))));
+    out.push(format!("debug {}", hex(&format!("{:?}", e))));
+}
+
+/// a user-defined context without variable storage that serves one read-only value for every identifier (C11: default set_value)
+struct ServeCtx {
+    value: Option<Value>,
+}
+impl Context for ServeCtx {
+    type NumericTypes = DefaultNumericTypes;
+    fn get_value(&self, _identifier: &str) -> Option<&Value> {
+        self.value.as_ref()
+    }
+    fn call_function(&self, identifier: &str, _argument: &Value) -> Result<Value, EvalexprError> {
+        Err(EvalexprError::FunctionIdentifierNotFound(identifier.to_string()))
+    }
+    fn are_builtin_functions_disabled(&self) -> bool {
+        false
+    }
+    fn set_builtin_functions_disabled(&mut self, _disabled: bool) -> Result<(), EvalexprError> {
+        Err(EvalexprError::BuiltinFunctionsCannotBeDisabled)
+    }
+}
+impl ContextWithMutableVariables for ServeCtx {}
+
 fn run_case(c: &Case) -> Vec<String> {
     let mut out = vec![];
+    if c.entry == "serve_set_value" || c.entry == "serve_eval_mut" || c.entry == "serve_eval" {
+        // vars[0] (optional) = the value served for every identifier; ops[0] = `arg <value>` written to x / expr evaluated
+        let mut ctx = ServeCtx { value: c.vars.first().map(|(_, v)| v.clone()) };
+        if c.entry == "serve_set_value" {
+            let v = dec(c.ops[0].strip_prefix("arg ").unwrap());
+            show(&mut out, "result", ctx.set_value("x".to_string(), v), |_| "E".to_string());
+        } else if c.entry == "serve_eval_mut" {
+            show(&mut out, "result", eval_with_context_mut(&c.expr, &mut ctx), enc);
+        } else {
+            show(&mut out, "result", eval_with_context(&c.expr, &ctx), enc);
+        }
+        return out;
+    }
+    if c.entry == "display" {
+        run_display(c, &mut out);
+        return out;
+    }
     if run_nocontext(c, &mut out) {
         return out;
     }
